@@ -8,7 +8,7 @@ import "github.com/oasisprotocol/curve25519-voi/internal/verif"
 // nonce, S) never reaches a branch, an index or a variable-time routine. Group/scalar kernels are contracts
 // (their own constant-time checks are ct_field_kernels / ct_scalar_arithmetic / ct_*_mul).
 //
-//verif:ob prop=C08 name=ct_ed25519_keygen_and_sign mode=bv tags=purego ct=1 use=gapi split=mode:0..1;rnd:0..1
+//verif:ob prop=C08,C18 name=ct_ed25519_keygen_and_sign mode=bv tags=purego ct=1 use=gapi split=mode:0..1;rnd:0..1 sharedro=1
 func vh_C08_sign() {
 	verif.Secret("seed")
 	verif.Secret("rand#")
